@@ -36,9 +36,10 @@ PROPS = {
     'C03': dict(jobs=[('sim', 'contend', .5), ('sim', 'plan', .25), ('sim', 'general', .25)], quick_n=3000,
                 rule='run with >=1 cross-machine edge with positive transfer wait and >=1 same-machine edge',
                 nontrivial=lambda o: o['probes'].get('c03_nontrivial')),
-    'C04': dict(jobs=[('sim', 'general', .5), ('sim', 'adv', .3), ('sim', 'contend', .2)], quick_n=3000,
+    'C04': dict(jobs=[('sim', 'general', .45), ('sim', 'adv', .3), ('sim', 'contend', .18), ('pause_sample', 'real', .07)], quick_n=3000,
                 rule='completed run with >=2 workflows or a fired adversarial rewrite',
-                nontrivial=lambda o: o['status'] == 'ok' and (o['probes'].get('multi_workflow') or any(k.startswith('F2') for k in o['faults']))),
+                nontrivial=lambda o: o['status'] == 'ok' and (o['probes'].get('multi_workflow') or any(k.startswith('F2') for k in o['faults'])
+                                                              or o['probes'].get('pause_points'))),
     'C05': dict(jobs=[('sim', 'live', .7), ('sim', 'contend', .3)], quick_n=3000,
                 rule='feasible run in which an observation was postponed past its planned start, two started in one step, or a tier move happened',
                 nontrivial=lambda o: o['probes'].get('observation_postponed') or o['probes'].get('two_starts_same_step')
